@@ -20,6 +20,7 @@ pub enum Step {
     Error(ErrorKind),
     Eof,
     Misreport(usize), // how many bytes beyond the buffer length are claimed
+    ErrorWith(ErrorKind, u8), // a hard error whose payload is itself an error value of the library (0..3) or an io::Error
     Lie(usize),       // claims this many bytes (within the buffer) without writing any
     InterruptBurst(usize),        // this many interruptions in a row (logged as ONE event with a count)
     Alternate(usize, usize),      // count x (one interruption, then n bytes) (logged as ONE event)
@@ -190,6 +191,19 @@ impl Read for ScriptReader {
                 ));
                 Err(std::io::Error::new(kind, "scripted error"))
             }
+            Step::ErrorWith(kind, what) => {
+                self.log.push(format!(
+                    "{{\"e\":\"read\",\"buflen\":{},\"ret\":{{\"kind\":\"err\",\"err\":\"{:?}\",\"payload\":{}}}}}",
+                    buf.len(), kind, what
+                ));
+                Err(match what {
+                    0 => std::io::Error::new(kind, tlsh::GeneratorError::TooLargeInput),
+                    1 => std::io::Error::new(kind, tlsh::GeneratorError::TooSmallInput),
+                    2 => std::io::Error::new(kind, tlsh::ParseError::InvalidCharacter),
+                    3 => std::io::Error::new(kind, tlsh::GeneratorOrIOError::GeneratorError(tlsh::GeneratorError::BucketsAreHalfEmpty)),
+                    _ => std::io::Error::new(kind, std::io::Error::new(ErrorKind::Interrupted, "nested")),
+                })
+            }
             Step::InterruptBurst(k) => {
                 self.log.push(format!("{{\"e\":\"read\",\"buflen\":{},\"ret\":{{\"kind\":\"int\",\"count\":{}}}}}", buf.len(), k.max(1)));
                 self.burst_left = k.max(1) - 1;
@@ -351,6 +365,14 @@ pub fn run_c12(out: &mut Out, rng: &mut Rng, thorough: bool, only: Option<&str>,
             }
             run_stream(out, *v, Content::Explicit(rng.bytes(n)), script, false);
         }
+        // hard errors that CARRY a payload: the library's own error values, a nested io::Error
+        for what in 0..5u8 {
+            let n = 300;
+            let mut script = random_script(rng, n, 120, 0);
+            let at = if what % 2 == 0 { 0 } else { script.len() - 1 };
+            script.insert(at, Step::ErrorWith(if what == 4 { ErrorKind::Other } else { ErrorKind::InvalidData }, what));
+            run_stream(out, *v, Content::Explicit(rng.bytes(n)), script, false);
+        }
         // interruptions in a row: at the start, in the middle, just before EOF
         if with_interrupts {
             for place in 0..3 {
@@ -431,7 +453,8 @@ fn files(out: &mut Out, rng: &mut Rng, thorough: bool, only: Option<&str>) {
         if only.map_or(false, |o| o != v.name()) || v.ck_len() != 1 {
             continue;
         }
-        let sizes: Vec<usize> = if thorough { vec![0, 100, MIB - 1, MIB, MIB + 1, 3 * MIB + 7] } else { vec![0, 100, MIB, MIB + 1] };
+        let sizes: Vec<usize> = if thorough { vec![0, 1, 9, 10, 11, 49, 50, 51, 100, 255, 256, MIB - 1, MIB, MIB + 1, 3 * MIB + 7] }
+                                else { vec![0, 10, 49, 50, 100, 256, MIB, MIB + 1] };
         for n in sizes {
             let pat = rng.bytes(53);
             let path = std::path::PathBuf::from(format!("{}/f-{}-{}-{}.bin", dir, std::process::id(), v.name(), n));
@@ -514,6 +537,17 @@ fn files(out: &mut Out, rng: &mut Rng, thorough: bool, only: Option<&str>) {
                 let o = v.hash_file(&link);
                 let _ = std::fs::remove_file(&link);
                 out.emit(Ev::new("file_err").str("v", v.name()).str("why", "missing").raw("r", &outcome_json(&o)).meas(o.a, &o.p));
+            }
+        }
+        // sysfs attributes: regular files by their metadata, which reports one page whatever they deliver
+        for sys in ["/sys/devices/system/cpu/modalias", "/sys/devices/system/cpu/possible", "/sys/kernel/mm/transparent_hugepage/enabled",
+                    "/sys/devices/system/cpu/cpu0/topology/core_cpus_list", "/sys/kernel/notes"] {
+            let sp = std::path::Path::new(sys);
+            if let (Ok(d1), Ok(d2)) = (std::fs::read(sp), std::fs::read(sp)) {
+                if d1 == d2 && !d1.is_empty() && d1.len() < 20_000 {
+                    let o = v.hash_file(sp);
+                    out.emit(Ev::new("file_data").str("v", v.name()).str("why", "sysfs").bytes("data", &d1).raw("r", &outcome_json(&o)).meas(o.a, &o.p));
+                }
             }
         }
         // a FIFO (size 0 in metadata, short reads) carrying more than one buffer of periodic content
